@@ -35,10 +35,10 @@ CHECKS = {
          "Every mutating call issued by ruler must name an in-scope target or a path inside the ruler directory; content, mtime and exec bit of every other file must be unchanged; all goal choices, build and clean.",
          "scope computed by the harness's own closure over the rule graph"),
  "C10": ("exploration", "§C10", TECH + "clean/build histories with restore obligations; plus RealSystem-vs-SimSystem conformance probe",
-         "After each clean no in-scope target may exist and its bytes must be cached; a build after clean(s) of an up-to-date scope must succeed, restore bytes and exec bits, and run nothing when contents are pairwise different. The real-file-system half of the quantifier is covered only by a conformance probe of the stub against RealSystem (model validation, not simulation coverage).",
+         "After each clean no in-scope target may exist and its bytes must be cached; a build after clean(s) of an up-to-date scope must succeed, restore bytes and exec bits, and run nothing when contents are pairwise different. The real-file-system half of the quantifier is covered by validation of the stub against the real stack, not by simulation: a 46-step probe of System primitives on RealSystem vs SimSystem, and whole generated scenarios executed on RealSystem with /bin/sh and in the simulator with workspace bytes, exec bits, cached contents, verdicts and status lines compared after every operation.",
          "real kernels, shells and mtime granularity are outside the simulator"),
  "C11": ("fault_enumeration", "§C11", TECH + "process kill enumerated at every mutation index (and torn prefixes of every write) of victim executions; recovery build from each crash image",
-         "For every scenario of a seeded corpus the victim build/clean is executed under serial and sampled schedules; the disk is snapshotted before every mutation and at torn prefixes of every write; each crash image is audited (C07, C08) and then recovered by a fresh build that must succeed and satisfy C01.",
+         "For every scenario of a seeded corpus the victim build/clean is executed under serial and sampled schedules; the disk is snapshotted before every mutation and at torn prefixes of every write; each crash image is audited (C07, C08) and then recovered by a fresh build that must succeed and satisfy C01; a third of the recovered workspaces are followed further (goal-restricted recovery, full build, clean, build, edit, build, revert, build) and a sample of recovery builds is killed again.",
          "kill, not power loss; quick tier caps crash states per execution"),
  "C16": ("fault_enumeration", "§C16", TECH + "storage faults on state files (every strict prefix, bit flips, garbage) written/read through the simulated disk by the real writers/readers",
          "Random rule histories and file-state tables are written by the real writers with short writes, then read back by the real readers with short reads after: no fault (must round-trip), every strict prefix (must be rejected), single-bit flips and random garbage (must not panic).",
@@ -47,10 +47,10 @@ CHECKS = {
          "Rules with an undeclared input are built, the input is changed, re-execution is forced, and the build must fail with exactly one Contradiction naming exactly the differing targets; after restoring the input the original record must still be in force.",
          "forced re-execution = tampered/deleted target with its cache entry removed"),
  "C18": ("exploration", "§C18", TECH + "differential: each history run as is and with the file-state table erased before every build, under two clock models",
-         "Verdict and workspace bytes after every build must agree between the two executions, under the 'distinct' and the coarse 'tick' clock; policy schedules (serial, reverse) so that schedule effects cannot masquerade as table effects.",
+         "Verdict and workspace bytes after every build must agree between the two executions, under the 'distinct', the 'unordered' and the coarse 'tick' clock; policy schedules (serial, reverse) so that schedule effects cannot masquerade as table effects; a probe for table entries attached to a different file guides extension of histories in which nothing has differed yet.",
          "tick clock: one tick per user action or ruler invocation"),
  "C19": ("exploration", "§C19", TECH + "real route closures driven in memory (warp::test) on ruler directories produced by simulated histories; oracle = independent listing of the disk",
-         "Every cached hash, every recorded (rule, sources) pair, absent names and hostile/malformed paths are requested from one long-lived server instance per directory; status and body are compared with an independent model of the directory.",
+         "Every cached hash, every recorded (rule, sources) pair, absent names, names whose value is a present hash + 2^256, and hostile/malformed paths are requested from one long-lived server instance per directory, while further builds/cleans change the directory between requests; status and body are compared with an independent model of the directory recomputed per phase.",
          "transport stubbed (no TCP); everything behind the filter is real"),
  "C20": ("exploration", "§C20", TECH + "recorded Printer output compared with what the event history says happened to each target",
          "For every successful rule exactly one status per target, Built iff its command ran, Recovered iff a cache->target rename happened, Up-to-date iff nothing touched it; none for failed/cancelled rules.",
